@@ -1611,6 +1611,108 @@ def onesub_stream(ctx):
     check_cases(ctx, out, "onesub")
 
 
+REBUILD_PY = """import numpy as np
+from collections import OrderedDict
+import funsor
+from funsor.domains import Bint, Real, Reals
+from funsor.tensor import Tensor
+from funsor.terms import Lambda, Variable
+binder, free, fsize, index = {binder!r}, {free!r}, {fsize}, {index}
+Wd = np.arange(1.0, 7.0).reshape(3, 2)
+Ud = np.array({U})
+W, v = Variable('W', Reals[3, 2]), Variable('v', Real)
+z2 = Lambda(Variable(binder, Bint[3]), W[binder] * v)(v=Tensor(Ud, OrderedDict([(free, Bint[fsize])])))
+t = z2[index]
+print(dict(t.inputs))
+r = t(W=Tensor(Wd))
+print(r)
+expected = Ud.reshape((-1,) + (1,) * Wd[index].ndim) * Wd[index]
+FAILS = set(t.inputs) != {{'W', free}} or not isinstance(r, Tensor) or r.data.shape != expected.shape or not np.allclose(r.data, expected)
+"""
+
+
+def rebuild_stream(ctx):
+    """Eager rules that REBUILD a binder term and choose its bound name (eager_getslice_lambda behind z[:, k], z[:],
+    z[..., k], z[a:b]; eager_getitem_lambda behind z[k], z[Variable], z[Tensor]) applied AFTER a capture-prone
+    substitution: Lambda(b, W[b] * v)(v := U(f)) with the free name f drawn from the pool (f = the binder's raw name
+    included), W a free real array (the term stays lazy under eager)."""
+    rng = ctx.rng
+    Wd = np.arange(1.0, 7.0).reshape(3, 2)
+    pyidx = [("[:, k]", lambda k: (slice(None), k)), ("[:]", lambda k: slice(None)), ("[..., k]", lambda k: (Ellipsis, k)),
+             ("[a:b]", lambda k: slice(1, 3)), ("[a:b, k]", lambda k: (slice(0, 2), k)), ("[k]", lambda k: 2)]
+    for binder, free in itertools.product(POOL, POOL):
+        for fsize in (3, 2):
+            Ud = np.array([float(rng.choice([1, 2, 3, 5])) for _ in range(fsize)])
+            for mode in ("eager", "lazy", "reflect"):
+                for label, mk_index in pyidx + [("[Variable]", None), ("[Tensor]", None)]:
+                    k = rng.randrange(2)
+                    cname = rng.choice(POOL)
+
+                    def build(bn):
+                        W, v = Variable("W", Reals[3, 2]), Variable("v", Real)
+                        z2 = Lambda(Variable(bn, Bint[3]), W[bn] * v)(v=Tensor(Ud, OrderedDict([(free, Bint[fsize])])))
+                        if label == "[Variable]":
+                            return z2[Variable(cname, Bint[3])]
+                        if label == "[Tensor]":
+                            return z2[Tensor(np.array([2, 0, 1]), OrderedDict([(cname, Bint[3])]), 3)]
+                        return z2[mk_index(k)]
+                    # expected value as a named array over the free discrete names
+                    if label in ("[Variable]", "[Tensor]"):
+                        rows = Wd if label == "[Variable]" else Wd[[2, 0, 1]]
+                        if cname == free:
+                            if fsize != 3:
+                                continue            # one name, two sizes: ill-typed
+                            names, E = [free], Ud[:, None] * rows
+                        else:
+                            names, E = [free, cname], Ud[:, None, None] * rows[None]
+                    else:
+                        sub = Wd[mk_index(k)]
+                        names, E = [free], Ud.reshape((-1,) + (1,) * sub.ndim) * sub
+                    ctx.count(f"rebuild:lambda{label}")
+                    if binder == free:
+                        ctx.count("rebuild:free-name-equals-binder")
+                    outs = {}
+                    bad = None
+                    for twin, bn in ((False, binder), (True, "u1")):
+                        try:
+                            if mode == "eager":
+                                t = build(bn)
+                            else:
+                                with {"lazy": lazy, "reflect": reflect}[mode]:
+                                    t0 = build(bn)
+                                t = reinterpret(t0)
+                            nm_ = check_names(t, names, {"W"}, exact_inputs=True) if not isinstance(t, (Tensor, Number)) else None
+                            res = t(W=Tensor(Wd))
+                        except DECLINE + (RecursionError,) as e:
+                            outs[twin] = "declined"
+                            ctx.count(f"rebuild:{mode}:declined:{type(e).__name__}")
+                            continue
+                        if nm_:
+                            bad = f"{nm_[0]}: {nm_[1]}"
+                            break
+                        if not isinstance(res, Tensor):
+                            outs[twin] = "lazy"
+                            continue
+                        if set(res.inputs) != set(names):
+                            bad = f"result inputs {sorted(res.inputs)}, free names {sorted(names)}"
+                            break
+                        order = [(nm2, E.shape[q]) for q, nm2 in enumerate(names)]
+                        tab = np.asarray(futil.table(res, order))
+                        if tab.shape != E.shape or not np.allclose(tab, E):
+                            bad = f"{'twin ' if twin else ''}value {tab.tolist()} != {E.tolist()}"
+                            break
+                        outs[twin] = "value"
+                    if bad is None and {outs.get(False), outs.get(True)} == {"declined", "value"}:
+                        bad = f"binder name {binder!r}: {outs[False]}; fresh binder name: {outs[True]}"
+                    if bad:
+                        idx_src = {"[:, k]": f"(slice(None), {k})", "[:]": "slice(None)", "[..., k]": f"(Ellipsis, {k})",
+                                   "[a:b]": "slice(1, 3)", "[a:b, k]": f"(slice(0, 2), {k})", "[k]": "2"}.get(label, "slice(None)")
+                        ctx.fail("input", "C05.rebuilt-binder-captures", witness={"binder": binder, "free": free, "free_size": fsize,
+                                 "index": label, "k": k, "index_name": cname, "mode": mode}, expected=f"function of {names}: {E.tolist()}",
+                                 got=bad, python=REBUILD_PY.format(binder=binder, free=free, fsize=fsize, index=idx_src, U=Ud.tolist()))
+                    ctx.case(nontrivial_key=f"{binder}{free}{fsize}{label}{mode}" if outs.get(False) == "value" and binder == free else None)
+
+
 def simsubs_stream(ctx):
     """SIMULTANEOUS substitution into ground Tensors / eager results: the keys of one call are binders of that call.
     Every pattern {key a renamed (Variable / Slice) onto the name of another key b of the same call, b replaced by a
@@ -2679,6 +2781,7 @@ def correspond(ctx):
     enum_stream(ctx)
     simsubs_stream(ctx)
     onesub_stream(ctx)
+    rebuild_stream(ctx)
     fusion_stream(ctx)
     clean_stream(ctx, 600 if quick else 5000)
     extras_stream(ctx, 80 if quick else 600)
